@@ -18,7 +18,8 @@ type DgramRec struct {
 	To        *net.UDPAddr
 	FromSock  *UDPConn
 	Payload   []byte
-	Fate      string // "delivered","lost","nobody","dup","delayed"
+	ESeq      int    // run-global socket event number of the send attempt
+	Fate      string // "delivered","lost","nobody","dup","delayed","write-error"
 	Delivered int    // number of copies queued at a socket
 	ToSock    *UDPConn
 }
@@ -115,7 +116,11 @@ func listenUDP(network string, la *net.UDPAddr, foreign bool) (*UDPConn, error) 
 		}
 		if la.Port == 0 && w.UDPSockErr > 0 && simrt.S.Fault.Permille(w.UDPSockErr) {
 			simrt.Fault("udp_socket_error")
+			w.SockAttempts = append(w.SockAttempts, false)
 			return nil, opErr("listen", network, la, &osSyscallErr{"socket", syscall.EMFILE})
+		}
+		if la.Port == 0 {
+			w.SockAttempts = append(w.SockAttempts, true)
 		}
 	}
 	port := la.Port
@@ -229,10 +234,15 @@ func (c *UDPConn) WriteToUDP(p []byte, ua *net.UDPAddr) (int, error) {
 	if !c.Foreign && w.UDPWriteErr > 0 && simrt.S.Fault.Permille(w.UDPWriteErr) {
 		simrt.Fault("udp_write_error")
 		c.WriteErrs++
+		w.EvSeq++
+		w.WriteFails = append(w.WriteFails, &DgramRec{At: simrt.Elapsed(), Seq: simrt.Steps(), ESeq: w.EvSeq, To: &net.UDPAddr{IP: ua.IP, Port: ua.Port, Zone: ua.Zone},
+			FromSock: c, Payload: append([]byte(nil), p...), Fate: "write-error"})
+		simrt.Account(len(p) + 200)
 		return 0, opErr("write", "udp", ua, syscall.ENETUNREACH)
 	}
 	w.nextDg++
-	rec := &DgramRec{ID: w.nextDg, At: simrt.Elapsed(), Seq: simrt.Steps(), From: c.sourceFor(ua.IP), To: &net.UDPAddr{IP: ua.IP, Port: ua.Port, Zone: ua.Zone},
+	w.EvSeq++
+	rec := &DgramRec{ID: w.nextDg, At: simrt.Elapsed(), Seq: simrt.Steps(), ESeq: w.EvSeq, From: c.sourceFor(ua.IP), To: &net.UDPAddr{IP: ua.IP, Port: ua.Port, Zone: ua.Zone},
 		FromSock: c, Payload: append([]byte(nil), p...)}
 	w.Dgrams = append(w.Dgrams, rec)
 	simrt.Account(len(p) + 200)
